@@ -113,16 +113,39 @@ def ser(a):
     return [str(a.dtype), list(a.shape), a.reshape(-1).tolist()]
 
 
+LAYOUTS = ["C", "C", "F", "strided", "rev", "T", "bswap"]
+
+
 def unser(x):
-    return np.array(x[2], dtype=x[0]).reshape(x[1])
+    """the array of a description [dtype, shape, values(, memory layout)]: equal values, different strides"""
+    a = np.array(x[2], dtype=x[0]).reshape(x[1])
+    lay = x[3] if len(x) > 3 else "C"
+    if lay == "F":
+        a = np.asfortranarray(a)
+    elif lay == "strided" and a.ndim >= 1:
+        big = np.zeros((2 * a.shape[0] + 1, *a.shape[1:]), dtype=a.dtype)
+        big[1::2] = a
+        a = big[1::2]
+    elif lay == "rev" and a.ndim >= 1:
+        a = np.ascontiguousarray(a[::-1])[::-1]
+    elif lay == "T" and a.ndim >= 2:
+        a = np.ascontiguousarray(a.T).T          # what np.array([u, v, w]).T gives
+    elif lay == "bswap":
+        a = a.astype(a.dtype.newbyteorder())     # same values, non-native byte order in memory
+    return a
+
+
+def with_layout(rng, x):
+    return x + [rng.choice(LAYOUTS)]
 
 
 def gen_fields_serial(rng, mesh_spec, pspecs, cspecs):
     """JSON-able description of a MeshFields object: everything needed to rebuild it through the public API"""
     npts = len(mesh_spec["points"])
-    return {"points": ser(mesh_spec["points"]), "cells": [[t, ser(c)] for t, c in mesh_spec["cells"]],
-            "pd": [[name, ser(rand_array(rng, dt, (npts, *shape)))] for name, dt, shape in pspecs],
-            "cd": [[name, [ser(rand_array(rng, dt, (len(c), *shape))) for _, c in mesh_spec["cells"]]] for name, dt, shape in cspecs]}
+    return {"points": with_layout(rng, ser(mesh_spec["points"])), "cells": [[t, with_layout(rng, ser(c))] for t, c in mesh_spec["cells"]],
+            "pd": [[name, with_layout(rng, ser(rand_array(rng, dt, (npts, *shape))))] for name, dt, shape in pspecs],
+            "cd": [[name, [with_layout(rng, ser(rand_array(rng, dt, (len(c), *shape)))) for _, c in mesh_spec["cells"]]]
+                   for name, dt, shape in cspecs]}
 
 
 def realize_fields(d):
